@@ -47,7 +47,7 @@ func main() {
 		"which of several fragments a merged field is delivered with is not fixed by the property; only the merged content, exactly-once delivery per (path,label), arrival after the owning object, hasNext and termination are checked",
 	}
 	seed := ev.Seed()
-	nOps := ev.Pick(40, 300)
+	nOps := ev.Pick(40, 1000)
 	var names []string
 	for n := range registry.Probes {
 		if strings.HasPrefix(n, "core_") || strings.HasPrefix(n, "rnd_") {
